@@ -1387,3 +1387,35 @@ Section HybridRefines.
       split; [reflexivity|split; [reflexivity|split; [reflexivity|constructor]]].
   Qed.
 End HybridRefines.
+
+(* ================================================================== the defects of the code before the fixes *)
+(* exact integer arithmetic: an instance of `arith` whose `<` is a strict order (non-vacuity of hyb_policy) *)
+Definition zarith : arith := mkArith Z Z.add Z.mul Z.div Z.ltb (Z.eqb 0) 0%Z Z.of_nat.
+
+Lemma zarith_irr : forall x : num zarith, nltb zarith x x = false.
+Proof. intros x. apply Z.ltb_irrefl. Qed.
+Lemma zarith_trans : forall x y z : num zarith,
+  nltb zarith x y = true -> nltb zarith y z = true -> nltb zarith x z = true.
+Proof. cbn. intros x y z H1 H2. apply Z.ltb_lt in H1, H2. apply Z.ltb_lt. lia. Qed.
+
+(* LRUCache before c9015ac: max_size=2, put a, put a, put b, put c raises KeyError *)
+Lemma lru_v0_keyerror :
+  run_ops (@lru_step_v0 unit 2) lru_empty [Put 0 1 tt; Put 0 2 tt; Put 1 3 tt; Put 2 4 tt]
+  = [ONone; ONone; ONone; Raised KeyError].
+Proof. reflexivity. Qed.
+(* max_size=1: put a, put a leaves a absent *)
+Lemma lru_v0_self_evict :
+  run_ops (@lru_step_v0 unit 1) lru_empty [Put 0 1 tt; Put 0 2 tt; Mem 0; Len]
+  = [ONone; ONone; OBool false; OLen 0].
+Proof. reflexivity. Qed.
+(* HybridCache before 7aec4e6: max_size=1, put(a, dur 0), put(b, dur 0) raises ZeroDivisionError *)
+Lemma hyb_v0_zerodiv :
+  run_ops (hyb_step zarith 1%Z 1%Z 1 false) hyb_empty [Put 0 1 0%Z; Put 1 2 0%Z]
+  = [ONone; Raised ZeroDivisionError].
+Proof. reflexivity. Qed.
+(* DiskCache before e60e797: three files, reopened with max_size=1, the next put raises FileNotFoundError *)
+Lemma disk_v0_filenotfound :
+  run_ops (@disk_step true 2 false unit) (disk_open [] 0 (Some 3))
+          [DOp (Put 0 1 tt); DOp (Put 1 2 tt); DOp (Put 2 3 tt); Reopen (Some 1); DOp (Put 3 4 tt)]
+  = [ONone; ONone; ONone; ONone; Raised FileNotFoundError].
+Proof. reflexivity. Qed.
